@@ -43,6 +43,12 @@ Definition revent_eqb (a b : revent) : bool :=
   | RRaised x, RRaised y => exn_eqb x y
   | _, _ => false
   end.
+Definition bevent_eqb (a b : bevent) : bool :=
+  match a, b with
+  | BSub, BSub | BUnsub, BUnsub | BConnect, BConnect => true
+  | BDeliver x, BDeliver y | BLost x, BLost y => Nat.eqb x y
+  | _, _ => false
+  end.
 Definition pevent_eqb (a b : pevent) : bool :=
   match a, b with
   | PConnect, PConnect | PPublish, PPublish | PGiveUp, PGiveUp | PEnd, PEnd => true
@@ -64,7 +70,9 @@ Inductive c15case :=
                                                    textually identical to run A without the TBad segments / to finA *)
 | ApiMsg (model observed : pv)                  (* message built by the API method vs. the transcribed literal *)
 | RL (channel : str) (script : list outcome) (obs : list revent)
-| RP (script : list outcome) (obs : list pevent).
+| RP (script : list outcome) (obs : list pevent)
+| RT (async : bool) (own : str) (items : list ritem)       (* the real RedisManager._thread over a fake broker *)
+     (obs : list bevent) (sentinels : list bool).           (* was each sentinel's effect observed? *)
 
 Definition is_bad (t : tag) : bool := match t with TBad => true | _ => false end.
 
@@ -202,6 +210,9 @@ Definition c15_eval (c : c15case) : nat :=
   | RP script obs =>
       bits (list_eqb pevent_eqb (pub_run script) obs)
            (if no_other script then pub_no_raise obs && Nat.leb (count_publish obs) 1 else true)
+  | RT async own items obs sentinels =>
+      bits (list_eqb bevent_eqb (rt_model (PStr own) async items) obs)
+           (deliveries_ok false obs && forallb (fun b => b) sentinels)
   end.
 
 (* shown by --replay: the clauses one by one
@@ -235,4 +246,5 @@ Definition c15_explain (c : c15case) :=
   | ApiMsg model observed => (None, None, None)
   | RL channel script obs => (None, Some (listen_run channel script), None)
   | RP script obs => (None, None, Some (pub_run script))
+  | RT async own items obs sentinels => (None, None, None)
   end.
